@@ -398,6 +398,12 @@ func (sd *SessionData) deleteStaleChunkCookies(r *http.Request, w http.ResponseW
 		if err != nil || index < keep {
 			continue
 		}
+		// Only names this middleware itself writes ("<base>_<index>" in canonical decimal) are deleted.
+		// Anything else (leading zeros, a sign) was never set by it, and echoing an arbitrarily long
+		// client-chosen name would produce a Set-Cookie line beyond the 4096 bytes browsers accept.
+		if name != prefix+strconv.Itoa(index) {
+			continue
+		}
 		expired := *options
 		expired.MaxAge = -1
 		http.SetCookie(w, sessions.NewCookie(name, "", &expired))
